@@ -927,6 +927,45 @@ func c20EvalCase(c *Ctx, vars []c20Var, roAll bool, e *aExpr, tags ...string) {
 	c.Case("eval/"+c20EnvArgs(vars, roAll)+"/"+e.enc(), e.size() >= 3, append(tags, tag)...)
 }
 
+// texts that are syntax errors both for bash and for the code (no complete first expression)
+var c20IncompleteText = map[string]bool{"3 +": true, "1 +": true, "* 2": true, "y +": true}
+
+// c20AssignStress: the TARGET of an assignment (plain `=`, and op= / ++ / -- for contrast) holds
+// expression text with a side effect, text that fails to evaluate, or a name chain.  bash never
+// evaluates the target of a plain `=`; the other operators read it (as a word) before the
+// right-hand side.  `reads` says whether the target is read.
+func c20AssignStress(r *Rand) (vars []c20Var, e *aExpr, reads bool) {
+	texts := []string{"y++", "z = 9", "w += 1", "y++ + z", "--y", "z = y = 4", // side effects
+		"1/0", "2 ** -1", "3 +", "a b", "y +", "/tmp/work dir", // fail to evaluate (or, for `a b`, trailing tokens)
+		"u", "u2", "y + 1", "7", ""} // name chain, pure expression, literal, unset
+	txt := texts[r.Intn(len(texts))]
+	vars = []c20Var{{name: "t", val: txt}, {name: "y", val: strconv.Itoa(1 + r.Intn(5))}, {name: "z", val: strconv.Itoa(r.Intn(4))},
+		{name: "w", val: strconv.Itoa(r.Intn(9))}, {name: "u", val: r.Pick([]string{"y", "3", "y++", ""})}, {name: "u2", val: "u"}}
+	rhs := []*aExpr{aW("5"), aW("0"), aW("y"), aB("add", aW("y"), aW("1")), aW("u"), aB("mul", aW("2"), aW("3"))}[r.Intn(6)]
+	var core *aExpr
+	switch k := r.Intn(10); {
+	case k < 5:
+		core = aB("assgn", aW("t"), rhs)
+	case k < 8:
+		core = aB(c20Bins[24+r.Intn(10)].name, aW("t"), rhs)
+		reads = true
+	default:
+		core = aU(r.Pick([]string{"inc", "dec"}), r.Bool(), aW("t"))
+		reads = true
+	}
+	switch r.Intn(5) {
+	case 0:
+		e = aB("add", core, aW("y"))
+	case 1:
+		e = aB("comma", aB("assgn", aW("w"), aW("y")), core)
+	case 2:
+		e = aB("ternQuest", aW("y"), aB("ternColon", core, aW("0")))
+	default:
+		e = core
+	}
+	return vars, e.parenthesize(), reads
+}
+
 // c20ShiftStress builds a grammatical expression around shifts whose count is negative, >= 64 or
 // huge, given literally, through unary minus, through a variable, or with <<= / >>=.  The values of
 // such shifts are outside the property's domain (bash is platform-defined there), so only "no Go
@@ -1344,6 +1383,11 @@ func (o *c20Oracle) readVar(name string, hops int) *big.Int {
 					return o.eval(sub)
 				}
 			}
+		}
+		if c20IncompleteText[strings.Trim(o.env[name], " \t\n")] {
+			// an incomplete expression: a syntax error in bash and in the code
+			o.err = "syntaxErr"
+			return big.NewInt(0)
 		}
 		o.excl = "value-not-literal"
 		return big.NewInt(0)
@@ -1811,6 +1855,48 @@ func c20ShellScript(vars []c20Var, e *aExpr, ctx string) (string, bool) {
 	return "", false
 }
 
+// c20AssignScript puts an assign-target stress expression into one of the contexts; the dump
+// carries the status and every variable (the side-effect variables included).
+func c20AssignScript(r *Rand, vars []c20Var, e *aExpr, tag, errClass string, reads bool) (c20ShellCase, bool) {
+	ctxs := []string{"cmd", "let", "forinit", "forpost"}
+	if tag == "ok" {
+		ctxs = append(ctxs, "exp", "exp", "idxget", "idxset")
+	} else if errClass == "divZero" || errClass == "negExp" {
+		ctxs = append(ctxs, "exp") // other error classes leave status 0 in $(( )): C20-value-error-status
+	}
+	ctx := r.Pick(ctxs)
+	text, ok := c20ExprText(e, ctx == "let")
+	if ctx == "let" && ok && strings.ContainsAny(text, "<>&|;!~ ") {
+		ok = false // shell metacharacters in an unquoted `let` argument
+	}
+	if !ok {
+		ctx = "cmd"
+		if text, ok = c20ExprText(e, false); !ok {
+			return c20ShellCase{}, false
+		}
+	}
+	pre := c20Assignments(vars)
+	var body string
+	switch ctx {
+	case "exp":
+		body = "echo \"v=$(( " + text + " ))\"\n"
+	case "cmd":
+		body = "(( " + text + " ))\n"
+	case "let":
+		body = "let " + text + "\n"
+	case "forinit":
+		body = "for (( " + text + ", i = 0; i < 2; i++ )); do echo \"i=$i\"; done\n"
+	case "forpost":
+		body = "for (( i = 0; i < 2; i++, " + text + " )); do echo \"i=$i\"; done\n"
+	case "idxget":
+		body = "arr=(a b c d)\necho \"e=${arr[( " + text + " ) & 3]}\"\n"
+	case "idxset":
+		body = "arr=(a b c d)\narr[( " + text + " ) & 3]=Q\necho \"${arr[@]}\"\n"
+	}
+	script := pre + body + c20Dump(vars)
+	return c20ShellCase{script: script, ctx: "assign-" + ctx, witness: "sh " + c20Esc(script)}, true
+}
+
 // deadPow reports whether a subtree that bash parses in "noeval" mode (the unselected branch of
 // `?:`, the short-circuited operand of `&&`/`||`) contains `**` with a non-literal exponent: bash
 // 5.2 raises "exponent less than 0" there from the constant-folded value (documented exclusion
@@ -1895,6 +1981,28 @@ func c20(c *Ctx) {
 		}
 		c20EvalCase(c, vars, roAll, e, "wild")
 		c20ParseStreams(c, e)
+
+		// assignment targets holding side-effect / failing texts: model = code, oracle, and bash
+		if i%3 == 0 {
+			avars, ae, reads := c20AssignStress(r)
+			avars = c20CompleteVars(avars, ae)
+			agot := c20Eval(avars, false, ae.toSyntax())
+			c.Op("eval "+c20EnvArgs(avars, false)+" "+ae.enc(), agot)
+			c.Case("assign-target/"+c20EnvArgs(avars, false)+"/"+ae.enc(), true, "assign-target")
+			aans, atag, aorc := c20OracleRun(avars, ae)
+			c.Hist["assign-target:"+atag]++
+			if aans != "" {
+				c.Op("speceval "+c20EnvArgs(avars, false)+" "+ae.enc(), agot)
+				if agot != aans {
+					c.Fail("eval "+c20EnvArgs(avars, false)+" "+ae.enc(), fmt.Sprintf("expand.Arithm gives %q, big.Int oracle of bash arithmetic gives %q", agot, aans))
+				}
+				if i%(3*max(1, shellEvery/2)) == 0 && len(shellCases) < nShell+160 && !aorc.dead {
+					if sc, ok := c20AssignScript(r, avars, ae, atag, aorc.err, reads); ok {
+						shellCases = append(shellCases, sc)
+					}
+				}
+			}
+		}
 
 		// shifts with counts outside 0..63 (outside the domain): no panic, model = code
 		if i%4 == 0 {
